@@ -2,5 +2,5 @@ SPECIFICATION SpecSim
 CONSTANTS MaxLen = 48
 Alphabet <- AlphaAll
 Kinds <- KindsAll
-INVARIANTS DesignOK CodecOK
+INVARIANTS DesignOK CodecOK AsIsOKOutsideKnown
 CHECK_DEADLOCK FALSE
